@@ -154,6 +154,30 @@ pub fn c20_serde(c: &mut Ctx, a: W) {
     expect_de(c, "serde/malformed", "empty sequence", &ins, a, guard(|| de_seq(vec![])), false);
     expect_de(c, "serde/malformed", "empty map", &ins, a, guard(|| de_map(vec![])), false);
 
+    // scalar inputs (a bare number, string, unit, bool) are no TwoFloat encoding; whatever the
+    // deserializer does with them, it must never hand out an invalid value
+    {
+        use serde::de::value::{BoolDeserializer, F64Deserializer, I64Deserializer, StrDeserializer, U64Deserializer, UnitDeserializer};
+        let scalar: Vec<(&str, Result<Result<TwoFloat, String>, String>)> = vec![
+            ("bare f64 hi", guard(|| TwoFloat::deserialize(F64Deserializer::<VErr>::new(a.0)).map_err(|e| e.to_string()))),
+            ("bare f64 lo", guard(|| TwoFloat::deserialize(F64Deserializer::<VErr>::new(a.1)).map_err(|e| e.to_string()))),
+            ("bare f64 inf", guard(|| TwoFloat::deserialize(F64Deserializer::<VErr>::new(f64::INFINITY)).map_err(|e| e.to_string()))),
+            ("bare f64 nan", guard(|| TwoFloat::deserialize(F64Deserializer::<VErr>::new(f64::NAN)).map_err(|e| e.to_string()))),
+            ("bare u64", guard(|| TwoFloat::deserialize(U64Deserializer::<VErr>::new(a.0.to_bits())).map_err(|e| e.to_string()))),
+            ("bare i64", guard(|| TwoFloat::deserialize(I64Deserializer::<VErr>::new(a.1.to_bits() as i64)).map_err(|e| e.to_string()))),
+            ("bare str", guard(|| TwoFloat::deserialize(StrDeserializer::<VErr>::new("1.0")).map_err(|e| e.to_string()))),
+            ("unit", guard(|| TwoFloat::deserialize(UnitDeserializer::<VErr>::new()).map_err(|e| e.to_string()))),
+            ("bool", guard(|| TwoFloat::deserialize(BoolDeserializer::<VErr>::new(true)).map_err(|e| e.to_string()))),
+        ];
+        c.note("serde/scalar", &ins, true);
+        for (what, r) in scalar {
+            match r {
+                Err(m) => c.viol("serde/scalar", "panic", &ins, &[], format!("{what}: {m}")),
+                Ok(Ok(v)) if !valid_ref(v.hi(), v.lo()) => c.viol("serde/scalar", "invalid_value_created", &ins, &[hx(v.hi()), hx(v.lo())], format!("{what}: deserialisation produced an invalid TwoFloat")),
+                _ => {}
+            }
+        }
+    }
     if valid {
         // serialisation: struct TwoFloat { hi, lo } in that order with the exact words
         let ta = t(a);
@@ -365,7 +389,8 @@ pub fn c20(c: &mut Ctx) {
         // make negative-zero low words common
         let a = if c.rng.chance(1, 10) { (a.0, -0.0) } else { a };
         let k = c.rng.below(all_precs.len() as u64) as usize;
-        let precs = [all_precs[k], c.rng.below(21) as usize];
+        let big = if c.rng.chance(1, 64) { pk!(c.rng, [300usize, 1073, 1074, 1075, 1100, 2000]) } else { c.rng.below(21) as usize };
+        let precs = [all_precs[k], big];
         c20_format(c, a, &precs);
         c20_serde(c, a);
         // pairs that are not valid: overlapping (incl. tie next to odd, one unit past the threshold), non-finite
